@@ -64,7 +64,7 @@ func Attribute(m Mismatch, running string) string {
 				return "C01" // an accepted revision of this kind lets an expiry pay out more than is locked
 			}
 			return "C07"
-		case has("!sum", "!samern", "!missedup", "!coll", "!capdown", "!validsum", "!missedsum", "!wrongleaf", "!wrongdata", "!short", "!missedhigh", "!stalern"):
+		case has("!sum", "!samern", "!missedup", "!coll", "!capdown", "!validsum", "!missedsum", "!wrongleaf", "!wrongdata", "!short", "!missedhigh", "!stalern", "!withrev"):
 			return "C07"
 		}
 	}
